@@ -57,7 +57,7 @@ def path_class(root, ev):
     return parts[0]
 
 
-def faulted_runs(sc, modes=(False, True), errnos=("EIO",), max_sites=400):
+def faulted_runs(sc, modes=(False, True), errnos=("EIO",), max_sites=400, store_factory=None, runner=None):
     """For every fault site x errno x mode of the scenario's target call: run it on a fresh copy of the
     start directory with the fault injected.  Yields (injector, store, directory, outcome); the caller
     judges and then the directory is discarded."""
@@ -67,10 +67,13 @@ def faulted_runs(sc, modes=(False, True), errnos=("EIO",), max_sites=400):
             k = 0
             while k < max_sites:
                 d = sc.fresh_copy()
-                store = common.make_store(d, sc.cfg)
+                store = store_factory(d) if store_factory else common.make_store(d, sc.cfg)
                 inj = Injector(d, k, en, sticky)
-                with fsi.active(d, inj):
-                    out = sc.call_target(store)
+                if runner is not None:
+                    out = runner(store, d, inj)
+                else:
+                    with fsi.active(d, inj):
+                        out = sc.call_target(store)
                 if inj.fired is None:
                     sc.discard(d)
                     break
